@@ -240,7 +240,8 @@ func (sp *spec) oracle(o *Observed) string {
 		if f.Type == "ack" {
 			seenAck = true
 		}
-		if !seenAck && f.Type != "connerr" && !(o.slow() && (f.Type == "ka" || f.Type == "pong")) {
+		if !seenAck && f.Type != "connerr" {
+			// no exception for keep-alives on old connections: since fix 05 (F-08e) the ticker starts with the ack
 			return fmt.Sprintf("message %d, %s, precedes the acknowledgement of a successful init", i, showW(f))
 		}
 		if f.Type == "other" || ((f.Type == "res" || f.Type == "comp") && f.ID < 0) {
